@@ -52,6 +52,21 @@ static void check(dmat_t *d)
 static void d_alloc(int k, int R, int C) { g_op = "allocate"; LIB_ENTER(); g_d[k].m = of_mod2dense_allocate((UINT32)R, (UINT32)C); LIB_LEAVE(); g_d[k].R = R; g_d[k].C = C; memset(g_d[k].M, 0, sizeof g_d[k].M); if (!g_d[k].m) vio("allocate returned NULL"); }
 static void d_free(int k) { if (g_d[k].m) { g_op = "free"; LIB_ENTER(); of_mod2dense_free(g_d[k].m); LIB_LEAVE(); g_d[k].m = NULL; } }
 
+/* index arrays for copyrows / copycols: uniform random, or near-regular (identity, shifted window, reversed) with a few
+ * entries exchanged or repeated: code that recognises runs must not trust their two ends only */
+static void index_array(rng_t *r, UINT32 *idx, int n, int src)
+{
+	unsigned mode = rng_below(r, 6);
+	if (mode == 0 || src < 1) { for (int x = 0; x < n; x++) idx[x] = rng_below(r, (uint32_t)src); return; }
+	int shift = mode >= 3 ? (int)(32 * rng_below(r, (uint32_t)(src / 32 + 1))) : (int)rng_below(r, (uint32_t)src);
+	for (int x = 0; x < n; x++) idx[x] = (UINT32)((mode == 2 ? src - 1 - (x % src) : (x + shift) % src));
+	int nswap = mode == 1 || mode == 2 ? 0 : 1 + (int)rng_below(r, 3);
+	for (int q = 0; q < nswap && n > 1; q++) {
+		int a = (int)rng_below(r, (uint32_t)n), b = (int)rng_below(r, (uint32_t)n);
+		if (mode == 5) idx[a] = idx[b]; else { UINT32 t = idx[a]; idx[a] = idx[b]; idx[b] = t; }
+	}
+}
+
 static void dense_sequence(rng_t *r, int len)
 {
 	led_reset(); g_led_bad_free = 0;
@@ -73,10 +88,10 @@ static void dense_sequence(rng_t *r, int len)
 		else if (op < 70) { /* copy 0 -> 1 (dest at least as large) or 0 -> 2 */
 			int b = 1 + (int)rng_below(r, 2); g_op = "copy"; of_mod2dense_copy(g_d[0].m, g_d[b].m);
 			memset(g_d[b].M, 0, sizeof g_d[b].M); for (int x = 0; x < g_d[0].R; x++) memcpy(g_d[b].M[x], g_d[0].M[x], (size_t)g_d[0].C); k = b; }
-		else if (op < 78) { int b = 1 + (int)rng_below(r, 2); UINT32 rows[MAXR]; for (int x = 0; x < g_d[b].R; x++) rows[x] = rng_below(r, (uint32_t)g_d[0].R);
+		else if (op < 78) { int b = 1 + (int)rng_below(r, 2); UINT32 rows[MAXR]; index_array(r, rows, g_d[b].R, g_d[0].R);
 			g_op = "copyrows"; of_mod2dense_copyrows(g_d[0].m, g_d[b].m, rows);
 			memset(g_d[b].M, 0, sizeof g_d[b].M); for (int x = 0; x < g_d[b].R; x++) memcpy(g_d[b].M[x], g_d[0].M[rows[x]], (size_t)g_d[0].C); k = b; }
-		else if (op < 86) { int b = 1 + (int)rng_below(r, 2); UINT32 cols[MAXC]; for (int x = 0; x < g_d[b].C; x++) cols[x] = rng_below(r, (uint32_t)g_d[0].C);
+		else if (op < 86) { int b = 1 + (int)rng_below(r, 2); UINT32 cols[MAXC]; index_array(r, cols, g_d[b].C, g_d[0].C);
 			g_op = "copycols"; of_mod2dense_copycols(g_d[0].m, g_d[b].m, cols);
 			memset(g_d[b].M, 0, sizeof g_d[b].M); for (int x = 0; x < g_d[b].C; x++) for (int y = 0; y < g_d[0].R; y++) g_d[b].M[y][x] = g_d[0].M[y][cols[x]]; k = b; }
 		else if (op < 96) { int t = (int)rng_below(r, (uint32_t)d->R); g_op = "xor_rows"; of_mod2dense_xor_rows(d->m, (UINT16)i, (UINT16)t); if (t != i) for (int x = 0; x < d->C; x++) d->M[t][x] ^= d->M[i][x]; else memset(d->M[t], 0, (size_t)d->C); }
